@@ -49,6 +49,13 @@ impl<'a> F64Arg for &'a f64 { open spec fn f64v(self) -> f64 { *self } }
 pub trait VerifAsF64 { fn verif_as_f64(self) -> f64; }
 impl VerifAsF64 for usize { #[verifier::external_body] fn verif_as_f64(self) -> (r: f64) ensures r == f64_of_int(self as int) { self as f64 } }
 impl VerifAsF64 for u8 { #[verifier::external_body] fn verif_as_f64(self) -> (r: f64) ensures r == f64_of_int(self as int) { self as f64 } }
+impl VerifAsF64 for u16 { #[verifier::external_body] fn verif_as_f64(self) -> (r: f64) ensures r == f64_of_int(self as int) { self as f64 } }
+impl VerifAsF64 for u32 { #[verifier::external_body] fn verif_as_f64(self) -> (r: f64) ensures r == f64_of_int(self as int) { self as f64 } }
+impl VerifAsF64 for u64 { #[verifier::external_body] fn verif_as_f64(self) -> (r: f64) ensures r == f64_of_int(self as int) { self as f64 } }
+impl VerifAsF64 for i8 { #[verifier::external_body] fn verif_as_f64(self) -> (r: f64) ensures r == f64_of_int(self as int) { self as f64 } }
+impl VerifAsF64 for i16 { #[verifier::external_body] fn verif_as_f64(self) -> (r: f64) ensures r == f64_of_int(self as int) { self as f64 } }
+impl VerifAsF64 for i32 { #[verifier::external_body] fn verif_as_f64(self) -> (r: f64) ensures r == f64_of_int(self as int) { self as f64 } }
+impl VerifAsF64 for i64 { #[verifier::external_body] fn verif_as_f64(self) -> (r: f64) ensures r == f64_of_int(self as int) { self as f64 } }
 impl VerifAsF64 for isize { #[verifier::external_body] fn verif_as_f64(self) -> (r: f64) ensures r == f64_of_int(self as int) { self as f64 } }
 
 // R13 (assumptions A-LIB-ITER): provided `Iterator` methods cannot be given a specification in Verus, so the
@@ -130,6 +137,58 @@ pub assume_specification [f64::abs](x: f64) -> (r: f64) ensures r == f64_abs_s(x
 pub assume_specification [f64::powf](x: f64, p: f64) -> (r: f64) ensures r == f64_powf_s(x, p);
 pub assume_specification [f64::is_nan](x: f64) -> (r: bool) ensures r == f64_is_nan_s(x);
 pub assume_specification [f64::is_finite](x: f64) -> (r: bool) ensures r == f64_is_finite_s(x);
+// further f64 library functions a change may introduce (A-F64-STD): uninterpreted symbols of their operands
+pub uninterp spec fn f64_fract_s(a: f64) -> f64;
+pub uninterp spec fn f64_floor_s(a: f64) -> f64;
+pub uninterp spec fn f64_ceil_s(a: f64) -> f64;
+pub uninterp spec fn f64_round_s(a: f64) -> f64;
+pub uninterp spec fn f64_trunc_s(a: f64) -> f64;
+pub uninterp spec fn f64_recip_s(a: f64) -> f64;
+pub uninterp spec fn f64_signum_s(a: f64) -> f64;
+pub uninterp spec fn f64_tan_s(a: f64) -> f64;
+pub uninterp spec fn f64_powi_s(a: f64, n: i32) -> f64;
+pub uninterp spec fn f64_max_s(a: f64, b: f64) -> f64;
+pub uninterp spec fn f64_min_s(a: f64, b: f64) -> f64;
+pub uninterp spec fn f64_mul_add_s(a: f64, b: f64, c: f64) -> f64;
+pub uninterp spec fn f64_is_infinite_s(a: f64) -> bool;
+pub uninterp spec fn f64_is_sign_negative_s(a: f64) -> bool;
+pub uninterp spec fn f64_is_sign_positive_s(a: f64) -> bool;
+pub assume_specification [f64::fract](x: f64) -> (r: f64) ensures r == f64_fract_s(x);
+pub assume_specification [f64::floor](x: f64) -> (r: f64) ensures r == f64_floor_s(x);
+pub assume_specification [f64::ceil](x: f64) -> (r: f64) ensures r == f64_ceil_s(x);
+pub assume_specification [f64::round](x: f64) -> (r: f64) ensures r == f64_round_s(x);
+pub assume_specification [f64::trunc](x: f64) -> (r: f64) ensures r == f64_trunc_s(x);
+pub assume_specification [f64::recip](x: f64) -> (r: f64) ensures r == f64_recip_s(x);
+pub assume_specification [f64::signum](x: f64) -> (r: f64) ensures r == f64_signum_s(x);
+pub assume_specification [f64::tan](x: f64) -> (r: f64) ensures r == f64_tan_s(x);
+pub assume_specification [f64::powi](x: f64, n: i32) -> (r: f64) ensures r == f64_powi_s(x, n);
+pub assume_specification [f64::max](x: f64, y: f64) -> (r: f64) ensures r == f64_max_s(x, y);
+pub assume_specification [f64::min](x: f64, y: f64) -> (r: f64) ensures r == f64_min_s(x, y);
+pub assume_specification [f64::mul_add](x: f64, y: f64, z: f64) -> (r: f64) ensures r == f64_mul_add_s(x, y, z);
+pub assume_specification [f64::is_infinite](x: f64) -> (r: bool) ensures r == f64_is_infinite_s(x);
+pub assume_specification [f64::is_sign_negative](x: f64) -> (r: bool) ensures r == f64_is_sign_negative_s(x);
+pub assume_specification [f64::is_sign_positive](x: f64) -> (r: bool) ensures r == f64_is_sign_positive_s(x);
+// R7: `x as <int>` with x: f64 (saturating float-to-int conversion): an uninterpreted function of x
+pub uninterp spec fn f64_as_i32_s(a: f64) -> i32;
+#[verifier::external_body] pub fn f64_as_i32<A: F64Arg>(a: A) -> (r: i32) ensures r == f64_as_i32_s(a.f64v()) { unimplemented!() }
+pub uninterp spec fn f64_as_i64_s(a: f64) -> i64;
+#[verifier::external_body] pub fn f64_as_i64<A: F64Arg>(a: A) -> (r: i64) ensures r == f64_as_i64_s(a.f64v()) { unimplemented!() }
+pub uninterp spec fn f64_as_isize_s(a: f64) -> isize;
+#[verifier::external_body] pub fn f64_as_isize<A: F64Arg>(a: A) -> (r: isize) ensures r == f64_as_isize_s(a.f64v()) { unimplemented!() }
+pub uninterp spec fn f64_as_usize_s(a: f64) -> usize;
+#[verifier::external_body] pub fn f64_as_usize<A: F64Arg>(a: A) -> (r: usize) ensures r == f64_as_usize_s(a.f64v()) { unimplemented!() }
+pub uninterp spec fn f64_as_u32_s(a: f64) -> u32;
+#[verifier::external_body] pub fn f64_as_u32<A: F64Arg>(a: A) -> (r: u32) ensures r == f64_as_u32_s(a.f64v()) { unimplemented!() }
+pub uninterp spec fn f64_as_u64_s(a: f64) -> u64;
+#[verifier::external_body] pub fn f64_as_u64<A: F64Arg>(a: A) -> (r: u64) ensures r == f64_as_u64_s(a.f64v()) { unimplemented!() }
+pub uninterp spec fn f64_as_u8_s(a: f64) -> u8;
+#[verifier::external_body] pub fn f64_as_u8<A: F64Arg>(a: A) -> (r: u8) ensures r == f64_as_u8_s(a.f64v()) { unimplemented!() }
+pub uninterp spec fn f64_as_i8_s(a: f64) -> i8;
+#[verifier::external_body] pub fn f64_as_i8<A: F64Arg>(a: A) -> (r: i8) ensures r == f64_as_i8_s(a.f64v()) { unimplemented!() }
+pub uninterp spec fn f64_as_u16_s(a: f64) -> u16;
+#[verifier::external_body] pub fn f64_as_u16<A: F64Arg>(a: A) -> (r: u16) ensures r == f64_as_u16_s(a.f64v()) { unimplemented!() }
+pub uninterp spec fn f64_as_i16_s(a: f64) -> i16;
+#[verifier::external_body] pub fn f64_as_i16<A: F64Arg>(a: A) -> (r: i16) ensures r == f64_as_i16_s(a.f64v()) { unimplemented!() }
 pub uninterp spec fn f64_pi_s() -> f64;
 #[verifier::external_body] pub fn f64_const_pi() -> (r: f64) ensures r == f64_pi_s() { ::core::f64::consts::PI }
 
